@@ -18,7 +18,7 @@ from ..guards import (G, TRUE, FALSE, g_and, g_not, g_or, g_equiv, g_implies, g_
 from ..gvn import Frame, Obj, PW, Vec, cases_of, veq, Unsupported
 from . import rdp_model as rm
 from .c01 import _r4
-from .common import RuleCtx, _short, split_at_loop, stored_names, sign_set_name
+from .common import RuleCtx, _short, split_at_loop, stored_names, sign_set_name, returned_names
 
 C = Rat.const
 
@@ -153,8 +153,8 @@ def run(ctx):
         res.violation("P1", mod, fi.name, loop, "the mapped index is not i + (running sum of dropped points), emitted once per query",
                       str([_short(e.args[0], 80) for e in apps]), "rv.append(int(i + count))", construct="emit")
     # return
-    rets = [st for st in post if isinstance(st, ast.Return)]
-    if len(rets) == 1 and L in {n.id for n in ast.walk(rets[0]) if isinstance(n, ast.Name)}:
+    rn = returned_names(post)
+    if rn is not None and L in rn:
         res.ok("P1", "rdp.mapping:return", "returns the emitted list as an array")
     else:
         res.violation("P1", mod, fi.name, fi.node, "the emitted list is not what is returned", construct="mapping return")
